@@ -4,6 +4,11 @@ from checks import simcommon as C
 from checks.c18 import fmt
 
 
+def progen_libm(r, k):
+    import progen
+    return progen.gen_program(r, lps=r.choice([2, 3, 4, 8, 12]), target=r.choice([25, 60, 150]), libm=True, zero_ts=(k % 3 == 0))
+
+
 def run(c, replay):
     r = V.Rng(c.seed)
     ctx = C.setup(c, "C09")
@@ -50,8 +55,53 @@ def run(c, replay):
                 break
         if len(lst) >= 3:
             nontriv += 1
+    # ---- programs drawing through libm (Expent, Normal, Gamma, Zipf, RandomRangeNonUniform): there is no Gallina twin of libm,
+    # so these are compared implementation against implementation: the serial runtime's result is the reference (C10 ties it to the
+    # reference executor on modelled programs) and every parallel configuration must reproduce it
+    import os
+    from concurrent.futures import ThreadPoolExecutor
+    nl = 6 if c.tier == "quick" else 60
+    ljobs, lprogs = [], []
+    for k in range(nl):
+        p = progen_libm(r, k)
+        text = __import__("progen").render(p)
+        pf = os.path.join(ctx["sd"], "libm%d.txt" % k)
+        open(pf, "w").write(text)
+        ref = S.run_sim(ctx["exe"], pf, mode="serial", threads=1, gvt=0, watchdog=60, timeout=120)
+        if ref.sanitizer:
+            C.sanitizer_violation(c, ref, text, "serial")
+            continue
+        if not ref.returned:
+            continue
+        lprogs.append((pf, text, ref))
+        for (th, ck, gp) in C.configs(r, c.tier, p["lps"]) + [(2, 1, 100), (4, 1, 200)]:
+            ljobs.append((len(lprogs) - 1, th, ck, gp, 1))
+        if p["lps"] >= 2:
+            ljobs.append((len(lprogs) - 1, 2, 2, 200, 2))
+
+    def one(job):
+        i, th, ck, gp, ranks = job
+        return job, S.run_sim(ctx["exe"], lprogs[i][0], threads=th, ckpt=ck, gvt=gp, watchdog=25, timeout=60, ranks=ranks)
+    with ThreadPoolExecutor(4) as ex:
+        lres = list(ex.map(one, ljobs))
+    lok = 0
+    for (i, th, ck, gp, ranks), res in lres:
+        pf, text, ref = lprogs[i]
+        cfg = dict(threads=th, checkpoint_interval=ck, gvt_period_us=gp, ranks=ranks, cmd=res.cmd)
+        if res.sanitizer:
+            C.sanitizer_violation(c, res, text, cfg)
+            continue
+        if not res.returned:
+            continue
+        lok += 1
+        if sorted(res.final) != sorted(ref.final):
+            c.violation("config-dependent-result:libm-draws", dict(kind="property", program=text, config_a="serial runtime", config_b=cfg,
+                        serial=ref.final[:4], parallel=sorted(res.final)[:4]), True)
     C.finish(c, ctx)
-    c.cov.update(evaluations=len(runs) + len(cases), distinct_nontrivial=nontriv, runs_returned=ok, seeding_cases=len(cases),
-                 rule="seeding compared bit-exactly with the model for sampled (lp, seed); programs drawing RandomU64/Random/RandomRange run under a matrix of "
+    c.cov["libm_programs"] = len(lprogs)
+    c.cov["libm_runs_returned"] = lok
+    c.cov.update(evaluations=len(runs) + len(cases) + len(lres), distinct_nontrivial=nontriv, runs_returned=ok, seeding_cases=len(cases),
+                 rule="seeding compared bit-exactly with the model for sampled (lp, seed); programs drawing Expent/Normal/Gamma/Zipf/RandomRangeNonUniform (libm: no Gallina twin) "
+                      "run under the same matrix plus a 2-rank run, all final digests equal the serial runtime's; programs drawing RandomU64/Random/RandomRange run under a matrix of "
                       "(threads, checkpoint interval, GVT period, repetition): all final digests equal each other and the reference; non-trivial = program with >= 3 returning configurations",
                  traces_validated_against_impl=ok, samples=[fmt(cases[0]), C.describe(runs[0])])
